@@ -416,6 +416,24 @@ def run(chk, name, cases, cfg, differs, share=False, restore_vars=True):
             chk.evaluations += tn
             for d in tdis[:5]:  # a cache keyed on printed constants answers with the wrong type: judged on the real objects
                 chk.add_failure(d["input"] + "  [constants lowered as the strings that print the same]", {"what": "optimize depends on how constants print, not on their values", **d}, None)
+        # the same over constants of other types (aware datetimes with differing offsets, ints beyond 2**53, tuples, Fraction, Decimal)
+        kinds = [k for k in lift.TWIN_KINDS if k != "str"]
+        odis, on = [], 0
+        for j, k in enumerate(idx[::step]):
+            ptxt = py[k][2]
+            if ptxt.startswith(("RAISED", "UNLIFTABLE", "MUTATED")):
+                continue
+            kind = kinds[j % len(kinds)]
+            with lift.twin(kind):
+                ttxt = py_optimize_text(cases[k], {} if share else None)[2]
+            on += 1
+            if ttxt != ptxt:
+                odis.append({"input": S.show(cases[k]), "numeric_constants": ptxt, "twin_kind": kind, "twin_constants": ttxt})
+        if on:
+            chk.add_corr(name + "/typed-twins", on, odis, note="same tree over order-isomorphic constants of another type (aware datetime / big int / tuple / Fraction / Decimal) must optimise to the isomorphic tree")
+            chk.evaluations += on
+            for d in odis[:5]:
+                chk.add_failure(d["input"] + f"  [constants lowered as order-isomorphic {d['twin_kind']} values]", {"what": "optimize depends on the type of the constants, not on their order and equality", **d}, None)
     return disagreements
 
 
